@@ -93,3 +93,12 @@ def run(ctx):
 
     # C11.LEN - the tail loop of cached iterators reads _len, which every generator exit must have published
     check_len_published(ctx, "C11.LEN")
+
+    # ---------------------------------------------------------------- C11.ARGS / C11.PRESENCE
+    from ..rules_common import check_call_arguments, check_presence_tests, ARG_SCOPE
+    check_call_arguments(ctx, "C11.ARGS", "C11")
+    from ..rules_common import check_effect_tables
+    check_effect_tables(ctx, "C11")
+    check_presence_tests(ctx, "C11.PRESENCE", classes=ARG_SCOPE.get("C11", []))
+
+
